@@ -3,7 +3,7 @@ import random
 from tools import vlib, t3
 
 MODULE = "PropC06"
-THEOREMS = ["C06_code_conforms", "C06_order_facts", "C06_slots_never_exceeded", "C06_invariant_form", "C06_nonvacuous", "C06_in_workflow"]
+THEOREMS = ["C06_code_conforms", "C06_order_facts", "C06_slots_never_exceeded", "C06_invariant_form", "C06_nonvacuous", "C06_in_workflow", "C06_cone_conforms"]
 
 
 class BgProc(t3.Proc):
